@@ -206,7 +206,18 @@ impl World {
         let result = self.sources.close_in_memory_file(path, format)?;
         self.analysis_reg.remove(result.closed_id);
 
-        let invalid = self.invalidate(result.closed_id);
+        let mut invalid = self.invalidate(result.closed_id);
+        // The closed in-memory id is dead from now on (the path either maps to a fresh id read
+        // from the filesystem or to nothing): it must not be re-analysed -- and its stale
+        // contents re-published under the file's URI -- by a later invalidation.
+        let closed_id = result.closed_id;
+        for revs in self.import_data.rev_imports.values_mut() {
+            revs.remove(&closed_id);
+        }
+        for ids in self.failed_imports.values_mut() {
+            ids.remove(&closed_id);
+        }
+        invalid.retain(|id| *id != closed_id);
         for f in &invalid {
             self.analysis_reg.remove(*f);
         }
